@@ -206,7 +206,7 @@ func runC12(t *testing.T, s C12Scenario) (res Result) {
 		sc.Off()
 		for _, st := range sc.Trace {
 			res.TraceK = append(res.TraceK, st.K)
-			res.TraceN = append(res.TraceN, len(st.Others)+1)
+			res.TraceN = append(res.TraceN, st.N)
 		}
 		if !finished {
 			res.failf("HARNESS: schedule did not finish within the step budget")
